@@ -207,6 +207,26 @@ func cLockDiscipline(e *Env) {
 	fns := e.RepoFuncsSorted()
 	for _, o := range lockOwners {
 		full := load.ModulePath + "/" + o.typ
+		// the mutex and what it protects may have moved into a struct the owner embeds
+		// by value (`Scheduler{runState}`): the discipline is then that struct's
+		if i := strings.LastIndex(o.typ, "."); i > 0 {
+			if pk := e.P.Pkg(o.typ[:i]); pk != nil {
+				if tn := pk.Type(o.typ[i+1:]); tn != nil && len(ir.MutexFields(tn.Type())) == 0 {
+					if st, isS := tn.Type().Underlying().(*types.Struct); isS {
+						var homes []string
+						for k := 0; k < st.NumFields(); k++ {
+							fd := st.Field(k)
+							if _, isES := fd.Type().Underlying().(*types.Struct); isES && fd.Embedded() && fd.Pkg() == pk.Pkg && len(ir.MutexFields(fd.Type())) > 0 {
+								homes = append(homes, ir.NamedType(fd.Type()))
+							}
+						}
+						if len(homes) == 1 {
+							full = homes[0]
+						}
+					}
+				}
+			}
+		}
 		cp := lr.constructionPhase(o)
 		type acc struct {
 			f *ssa.Function
